@@ -146,6 +146,9 @@ func (pr *Loader) findTableBuffer(s tableSection, dst []byte) ([]byte, error) {
 			dst = make([]byte, s.length)
 		}
 		dst = dst[0:s.length]
+		if s.length == 0 { // an empty table may sit at the very end of the file, where ReadAt reports EOF
+			return dst, nil
+		}
 		if _, err := pr.file.ReadAt(dst, int64(s.offset)); err != nil {
 			return nil, err
 		}
